@@ -59,6 +59,7 @@ def work(args):
     agg = dict(stats=Counter(), status=Counter(), trans=set(), evals=0, viols=[], guard=Counter(),
                samples=[], notes=Counter(), steps=0, digests=[])
     for s in seeds:
+        faulthandler.dump_traceback_later(600, exit=True)      # watchdog per run (re-armed), not per chunk
         try:
             res = engine.run(focus, seed=s, profile=profile)
         except Exception:  # harness bug: never silently dropped
@@ -81,6 +82,7 @@ def work(args):
             agg['samples'].append({'seed': s, 'ops': res.ops})
         if res.status == 'ok' and engine.FOCUS[focus].get('variants'):
             for vi, vops in enumerate(engine.fault_variants(res, 60 if (profile or {}).get('tier') == 'thorough' else 24)):
+                faulthandler.dump_traceback_later(600, exit=True)
                 r2 = engine.run(focus, ops_list=vops, profile=res.profile)
                 agg['stats']['variants.run'] += 1
                 agg['stats'].update(r2.stats)
